@@ -1,10 +1,1119 @@
-//! C11 — not built yet.
-use crate::{sx::Sx, Emitter};
+//! C11 — Matrix URIs: cases and implementation outcomes.
+//!
+//! value encodings
+//!   id     = ( N0 S<room id> ) | ( N1 S<room alias> ) | ( N2 S<user id> ) | ( N3 S<room or alias> S<event id> )
+//!   via    = ( S<server name> ... )
+//!   action = ( ) | ( N0 ) join | ( N1 ) chat | ( N2 S<custom> )
+//!   to     = ( id via )                 a `MatrixToUri` read back through `id()`, `via()`
+//!   uri    = ( id via action )          a `MatrixUri` read back through `id()`, `via()`, `action()`
+//!
+//! case = ( N0 id via )        build a `MatrixToUri` with ruma's public constructors
+//!                             (`RoomId::matrix_to_uri{,_via}`, `matrix_to_event_uri{,_via}`,
+//!                             `RoomAliasId::matrix_to_uri`, `matrix_to_event_uri`, `UserId::matrix_to_uri`),
+//!                             format it, parse the text back
+//!      | ( N1 id via N<flag> ) the same for `MatrixUri` (`matrix_uri{,_via}(.., join)`, `matrix_event_uri{,_via}`,
+//!                             `UserId::matrix_uri(chat)`)
+//!      | ( N2 S<text> )       `MatrixToUri::parse(text)`; when accepted: format the value, parse that text again
+//!      | ( N3 S<text> )       `MatrixUri::parse(text)`; likewise
+//!      | ( N5 S<text> )       the same as N3, for a text that the implementation parses to an identifier of the
+//!                             open finding C11-empty-opaque-id (room id "!" or event id "$"); Run.v checks the
+//!                             label against the model
+//!
+//! outcome of N0/N1:  ( N0 ( S<text> <reparse> ) )          reparse = ( N0 value ) | ( N1 N0 ) | ( N2 )
+//! outcome of N2/N3:  ( N1 N0 ) | ( N2 ) | ( N0 ( value S<text> <reparse> ) )
+//! All errors carry code 0 (the property does not speak of error kinds).  A value read back through the
+//! accessors is compared with the original both as s-expression and through ruma's `PartialEq`; if the two
+//! comparisons differ the outcome is ( N9 ), which the model never produces.  The three parse entry
+//! points (`parse`, `FromStr`, `TryFrom<&str>`) must agree, else ( N8 ).
+use std::panic::AssertUnwindSafe;
 
-pub fn run(_tier: &str, _seed: u64, _em: &mut Emitter) {}
+use ruma_common::{
+    api::{MatrixVersion, OutgoingRequest},
+    matrix_uri::{MatrixId, UriAction},
+    EventId, MatrixToUri, MatrixUri, OwnedServerName, RoomAliasId, RoomId, RoomOrAliasId, ServerName, UserId,
+};
 
-pub fn replay(_case: &Sx) -> Option<Sx> {
-    None
+use crate::{
+    rng::Rng,
+    sx::{guarded, Sx},
+    Emitter,
+};
+
+// ---------------------------------------------------------------------------------------------
+// value encoding
+// ---------------------------------------------------------------------------------------------
+fn id_sx(id: &MatrixId) -> Sx {
+    match id {
+        MatrixId::Room(r) => Sx::L(vec![Sx::N(0), Sx::s(r.as_str())]),
+        MatrixId::RoomAlias(a) => Sx::L(vec![Sx::N(1), Sx::s(a.as_str())]),
+        MatrixId::User(u) => Sx::L(vec![Sx::N(2), Sx::s(u.as_str())]),
+        MatrixId::Event(r, e) => Sx::L(vec![Sx::N(3), Sx::s(r.as_str()), Sx::s(e.as_str())]),
+        _ => Sx::L(vec![Sx::N(7)]),
+    }
+}
+fn via_sx(via: &[OwnedServerName]) -> Sx {
+    Sx::L(via.iter().map(|s| Sx::s(s.as_str())).collect())
+}
+fn action_sx(a: Option<&UriAction>) -> Sx {
+    match a {
+        None => Sx::L(vec![]),
+        Some(UriAction::Join) => Sx::L(vec![Sx::N(0)]),
+        Some(UriAction::Chat) => Sx::L(vec![Sx::N(1)]),
+        Some(other) => Sx::L(vec![Sx::N(2), Sx::s(other.as_str())]),
+    }
+}
+fn to_sx(u: &MatrixToUri) -> Sx {
+    Sx::L(vec![id_sx(u.id()), via_sx(u.via())])
+}
+fn uri_sx(u: &MatrixUri) -> Sx {
+    Sx::L(vec![id_sx(u.id()), via_sx(u.via()), action_sx(u.action())])
 }
 
-pub fn dump(_dir: &str) {}
+/// `MatrixToUri::parse` through its three entry points.
+fn parse_to(s: &str) -> Result<Option<MatrixToUri>, ()> {
+    let a = MatrixToUri::parse(s).ok();
+    let b = s.parse::<MatrixToUri>().ok();
+    let c = MatrixToUri::try_from(s).ok();
+    if a == b && b == c {
+        Ok(a)
+    } else {
+        Err(())
+    }
+}
+fn parse_uri(s: &str) -> Result<Option<MatrixUri>, ()> {
+    let a = MatrixUri::parse(s).ok();
+    let b = s.parse::<MatrixUri>().ok();
+    let c = MatrixUri::try_from(s).ok();
+    if a == b && b == c {
+        Ok(a)
+    } else {
+        Err(())
+    }
+}
+
+/// Parse the formatted text again and compare with the value it was formatted from.
+fn reparse_to(orig: &MatrixToUri, text: &str) -> Sx {
+    let text = text.to_owned();
+    let orig = orig.clone();
+    guarded(AssertUnwindSafe(move || match parse_to(&text) {
+        Err(()) => Sx::L(vec![Sx::N(8)]),
+        Ok(None) => Sx::err(0),
+        Ok(Some(v)) => {
+            if (to_sx(&v) == to_sx(&orig)) != (v == orig) {
+                Sx::L(vec![Sx::N(9)])
+            } else {
+                Sx::ok(to_sx(&v))
+            }
+        }
+    }))
+}
+fn reparse_uri(orig: &MatrixUri, text: &str) -> Sx {
+    let text = text.to_owned();
+    let orig = orig.clone();
+    guarded(AssertUnwindSafe(move || match parse_uri(&text) {
+        Err(()) => Sx::L(vec![Sx::N(8)]),
+        Ok(None) => Sx::err(0),
+        Ok(Some(v)) => {
+            if (uri_sx(&v) == uri_sx(&orig)) != (v == orig) {
+                Sx::L(vec![Sx::N(9)])
+            } else {
+                Sx::ok(uri_sx(&v))
+            }
+        }
+    }))
+}
+
+// ---------------------------------------------------------------------------------------------
+// running one case
+// ---------------------------------------------------------------------------------------------
+enum Id {
+    Room(String),
+    Alias(String),
+    User(String),
+    Event(String, String),
+}
+
+fn id_case(id: &Id) -> Sx {
+    match id {
+        Id::Room(r) => Sx::L(vec![Sx::N(0), Sx::s(r)]),
+        Id::Alias(a) => Sx::L(vec![Sx::N(1), Sx::s(a)]),
+        Id::User(u) => Sx::L(vec![Sx::N(2), Sx::s(u)]),
+        Id::Event(r, e) => Sx::L(vec![Sx::N(3), Sx::s(r), Sx::s(e)]),
+    }
+}
+
+fn decode_id(x: &Sx) -> Option<Id> {
+    let l = x.as_list()?;
+    match (l.first()?.as_int()?, &l[1..]) {
+        (0, [r]) => Some(Id::Room(r.as_string()?)),
+        (1, [a]) => Some(Id::Alias(a.as_string()?)),
+        (2, [u]) => Some(Id::User(u.as_string()?)),
+        (3, [r, e]) => Some(Id::Event(r.as_string()?, e.as_string()?)),
+        _ => None,
+    }
+}
+
+fn servers(via: &[String]) -> Option<Vec<OwnedServerName>> {
+    via.iter().map(|s| <&ServerName>::try_from(s.as_str()).ok().map(ToOwned::to_owned)).collect()
+}
+
+/// Build a `MatrixToUri` with the public constructors; `None` when the identifiers are not accepted by
+/// ruma's parsers or no constructor offers this combination.
+#[allow(deprecated)]
+fn build_to(id: &Id, via: &[String]) -> Option<MatrixToUri> {
+    let v = servers(via)?;
+    Some(match id {
+        Id::Room(r) => {
+            let r = <&RoomId>::try_from(r.as_str()).ok()?;
+            if v.is_empty() {
+                r.matrix_to_uri()
+            } else {
+                r.matrix_to_uri_via(v)
+            }
+        }
+        Id::Alias(a) if v.is_empty() => <&RoomAliasId>::try_from(a.as_str()).ok()?.matrix_to_uri(),
+        Id::User(u) if v.is_empty() => <&UserId>::try_from(u.as_str()).ok()?.matrix_to_uri(),
+        Id::Event(r, e) => {
+            let e = <&EventId>::try_from(e.as_str()).ok()?;
+            let roa = <&RoomOrAliasId>::try_from(r.as_str()).ok()?;
+            if roa.is_room_id() {
+                let r = <&RoomId>::try_from(r.as_str()).ok()?;
+                if v.is_empty() {
+                    r.matrix_to_event_uri(e)
+                } else {
+                    r.matrix_to_event_uri_via(e, v)
+                }
+            } else if v.is_empty() {
+                <&RoomAliasId>::try_from(r.as_str()).ok()?.matrix_to_event_uri(e)
+            } else {
+                return None;
+            }
+        }
+        _ => return None,
+    })
+}
+
+#[allow(deprecated)]
+fn build_uri(id: &Id, via: &[String], flag: bool) -> Option<MatrixUri> {
+    let v = servers(via)?;
+    Some(match id {
+        Id::Room(r) => {
+            let r = <&RoomId>::try_from(r.as_str()).ok()?;
+            if v.is_empty() {
+                r.matrix_uri(flag)
+            } else {
+                r.matrix_uri_via(v, flag)
+            }
+        }
+        Id::Alias(a) if v.is_empty() => <&RoomAliasId>::try_from(a.as_str()).ok()?.matrix_uri(flag),
+        Id::User(u) if v.is_empty() => <&UserId>::try_from(u.as_str()).ok()?.matrix_uri(flag),
+        Id::Event(r, e) if !flag => {
+            let e = <&EventId>::try_from(e.as_str()).ok()?;
+            let roa = <&RoomOrAliasId>::try_from(r.as_str()).ok()?;
+            if roa.is_room_id() {
+                let r = <&RoomId>::try_from(r.as_str()).ok()?;
+                if v.is_empty() {
+                    r.matrix_event_uri(e)
+                } else {
+                    r.matrix_event_uri_via(e, v)
+                }
+            } else if v.is_empty() {
+                <&RoomAliasId>::try_from(r.as_str()).ok()?.matrix_event_uri(e)
+            } else {
+                return None;
+            }
+        }
+        _ => return None,
+    })
+}
+
+fn run_ctor_to(id: &Id, via: &[String]) -> Option<Sx> {
+    let u = build_to(id, via)?;
+    Some(guarded(AssertUnwindSafe(move || {
+        let text = u.to_string();
+        let re = reparse_to(&u, &text);
+        Sx::ok(Sx::L(vec![Sx::s(&text), re]))
+    })))
+}
+fn run_ctor_uri(id: &Id, via: &[String], flag: bool) -> Option<Sx> {
+    let u = build_uri(id, via, flag)?;
+    Some(guarded(AssertUnwindSafe(move || {
+        let text = u.to_string();
+        let re = reparse_uri(&u, &text);
+        Sx::ok(Sx::L(vec![Sx::s(&text), re]))
+    })))
+}
+
+fn run_text_to(s: &str) -> Sx {
+    let s = s.to_owned();
+    guarded(AssertUnwindSafe(move || match parse_to(&s) {
+        Err(()) => Sx::L(vec![Sx::N(8)]),
+        Ok(None) => Sx::err(0),
+        Ok(Some(v)) => {
+            let text = v.to_string();
+            let re = reparse_to(&v, &text);
+            Sx::ok(Sx::L(vec![to_sx(&v), Sx::s(&text), re]))
+        }
+    }))
+}
+fn run_text_uri(s: &str) -> Sx {
+    let s = s.to_owned();
+    guarded(AssertUnwindSafe(move || match parse_uri(&s) {
+        Err(()) => Sx::L(vec![Sx::N(8)]),
+        Ok(None) => Sx::err(0),
+        Ok(Some(v)) => {
+            let text = v.to_string();
+            let re = reparse_uri(&v, &text);
+            Sx::ok(Sx::L(vec![uri_sx(&v), Sx::s(&text), re]))
+        }
+    }))
+}
+
+fn run_case(case: &Sx) -> Option<Sx> {
+    let l = case.as_list()?;
+    match (l.first()?.as_int()?, &l[1..]) {
+        (0, [id, via]) => {
+            let via: Vec<String> = via.as_list()?.iter().map(|x| x.as_string()).collect::<Option<_>>()?;
+            run_ctor_to(&decode_id(id)?, &via)
+        }
+        (1, [id, via, flag]) => {
+            let via: Vec<String> = via.as_list()?.iter().map(|x| x.as_string()).collect::<Option<_>>()?;
+            run_ctor_uri(&decode_id(id)?, &via, flag.as_int()? != 0)
+        }
+        (2, [s]) => Some(run_text_to(&s.as_string()?)),
+        (3 | 5, [s]) => Some(run_text_uri(&s.as_string()?)),
+        _ => None,
+    }
+}
+
+pub fn replay(case: &Sx) -> Option<Sx> {
+    run_case(case)
+}
+
+// ---------------------------------------------------------------------------------------------
+// dump: membership of PATH_PERCENT_ENCODE_SET, read off the compiled code
+// ---------------------------------------------------------------------------------------------
+/// `PATH_PERCENT_ENCODE_SET` is `pub(crate)`.  Its membership is observed twice:
+///  * `set b x`  — `Metadata::make_endpoint_url` with the one-character path argument `b` (all 128 ASCII
+///    bytes; `x` = 1 when the argument came back as `%XX`);
+///  * `room b x` — `RoomId("!" b).matrix_to_uri()` for b in 1..=127 (identifiers cannot contain NUL).
+/// The translator requires the two observations to agree and cross-checks them with the `.add(b'x')` chain
+/// in the source text.  `nonascii x`: a two-byte character is always escaped.
+pub fn dump(dir: &str) {
+    use std::fmt::Write;
+    let meta = <ruma_client_api::profile::get_profile::v3::Request as OutgoingRequest>::METADATA;
+    let mut out = String::new();
+    for b in 0u8..128 {
+        let arg = (b as char).to_string();
+        let url = meta
+            .make_endpoint_url(&[MatrixVersion::V1_1], "https://h", &[&arg], "")
+            .expect("endpoint url");
+        let tail = url.rsplit('/').next().unwrap().to_owned();
+        let enc = format!("%{b:02X}");
+        let x = if tail == enc {
+            1
+        } else if tail == arg {
+            0
+        } else {
+            // '/' cannot be told apart by rsplit when it is not escaped: the tail is then empty
+            assert!(b == b'/' && tail.is_empty(), "unexpected endpoint url {url:?} for byte {b}");
+            0
+        };
+        writeln!(out, "set {b} {x}").unwrap();
+        if b != 0 {
+            let id = format!("!{}", b as char);
+            let r = <&RoomId>::try_from(id.as_str()).expect("room id");
+            let text = r.matrix_to_uri().to_string();
+            let tail = text.strip_prefix("https://matrix.to/#/!").expect("matrix.to prefix");
+            let x = if tail == enc {
+                1
+            } else {
+                assert!(tail == arg, "unexpected matrix.to text {text:?} for byte {b}");
+                0
+            };
+            writeln!(out, "room {b} {x}").unwrap();
+        }
+    }
+    let r = <&RoomId>::try_from("!\u{e9}").unwrap();
+    let text = r.matrix_to_uri().to_string();
+    writeln!(out, "nonascii {}", (text == "https://matrix.to/#/!%C3%A9") as u8).unwrap();
+    std::fs::write(format!("{dir}/c11_percent_set.txt"), out).unwrap();
+}
+
+// ---------------------------------------------------------------------------------------------
+// generators
+// ---------------------------------------------------------------------------------------------
+const LOCALS: &[&str] = &[
+    "carl",
+    "a",
+    "",
+    "a.b-c_d=e/f+g",
+    "CARL",
+    "a%41",
+    "%",
+    "%%",
+    "%2",
+    "%zz",
+    "%2F",
+    "%e9",
+    "a/b",
+    "/",
+    "//",
+    "a?b",
+    "?",
+    "a#b",
+    "#",
+    "a+b",
+    "a&b=c",
+    "&via=x.y",
+    "?via=x.y",
+    "\u{e9}t\u{e9}",
+    "\u{20ac}uro",
+    "\u{1f600}",
+    "sp ace",
+    " ",
+    "ta\tb",
+    "a\nb",
+    "\r",
+    "\u{1}",
+    "del\u{7f}",
+    "\u{80}",
+    "[irc]",
+    "{x}",
+    "`",
+    "\"q\"",
+    "<a>",
+    "\\",
+    "^|",
+    "~",
+    ".",
+    "..",
+    "%2e",
+    "!#$@",
+    "$",
+    "e",
+    "u",
+    "roomid",
+];
+const SERVERS: &[&str] = &[
+    "x.y",
+    "example.com",
+    "a",
+    "matrix.org:8448",
+    "EXAMPLE.Com",
+    "a-b.c-d",
+    "1.2.3.4",
+    "1.2.3.4:80",
+    "[::1]",
+    "[::1]:8448",
+    "[1234:5678::abcd]",
+    "[::ffff:1.2.3.4]:1",
+    "[FE80::A]",
+    "-",
+    "..",
+    "h:0",
+    "h:65535",
+];
+const BAD_SERVERS: &[&str] = &["", "a b", "a/b", "a:b", "[::1", "h:+80", "h:65536", "\u{e9}.x", "a%2Eb", "a+b", "a&b", "a=b", "a#b"];
+const OPAQUE: &[&str] = &[
+    "",
+    "a",
+    "Tf2cCLh-6rDSoExj_9oGHqU8QFrs8Xk8CXJEcFEKvzU",
+    "abc+def/ghi=",
+    "a/b",
+    "%",
+    "%41",
+    "a?b#c",
+    "\u{e9}",
+    "a b",
+    "..",
+    ".",
+    "e",
+    "/",
+    "a&b",
+];
+const ACTIONS: &[&str] = &[
+    "",
+    "join",
+    "chat",
+    "a",
+    "JOIN",
+    "join ",
+    " chat",
+    "a&b",
+    "a#b",
+    "a+b",
+    "a%b",
+    "a%41",
+    "%",
+    "a b",
+    "\u{e9}",
+    "\u{1f600}",
+    "a=b",
+    "a?b",
+    "a/b",
+    "\t",
+    "a\nb",
+    "+",
+    "&via=x.y",
+    "&action=join",
+    "*-._~",
+    "'\"<>`{}",
+    "\u{1}\u{7f}",
+];
+
+fn gen_local(r: &mut Rng) -> String {
+    if r.chance(2, 3) {
+        (*r.pick(LOCALS)).to_owned()
+    } else {
+        let n = r.below(10);
+        (0..n)
+            .map(|_| {
+                *r.pick(&[
+                    "a", "z", "0", "-", ".", "=", "_", "/", "+", "%", "?", "#", "&", "A", "~", "!", "[", "]", "\u{e9}",
+                    "\u{20ac}", " ", "@", "$", "\t", "%2F", "%25",
+                ])
+            })
+            .collect()
+    }
+}
+fn gen_server(r: &mut Rng) -> String {
+    (*r.pick(SERVERS)).to_owned()
+}
+fn gen_room(r: &mut Rng) -> String {
+    if r.chance(1, 2) {
+        format!("!{}", r.pick(OPAQUE))
+    } else {
+        format!("!{}:{}", gen_local(r), gen_server(r))
+    }
+}
+fn gen_alias(r: &mut Rng) -> String {
+    format!("#{}:{}", gen_local(r), gen_server(r))
+}
+fn gen_user(r: &mut Rng) -> String {
+    format!("@{}:{}", gen_local(r), gen_server(r))
+}
+fn gen_event(r: &mut Rng) -> String {
+    if r.chance(1, 2) {
+        format!("${}", r.pick(OPAQUE))
+    } else {
+        format!("${}:{}", gen_local(r), gen_server(r))
+    }
+}
+fn gen_id(r: &mut Rng) -> Id {
+    match r.below(5) {
+        0 => Id::Room(gen_room(r)),
+        1 => Id::Alias(gen_alias(r)),
+        2 => Id::User(gen_user(r)),
+        3 => Id::Event(gen_room(r), gen_event(r)),
+        _ => Id::Event(gen_alias(r), gen_event(r)),
+    }
+}
+fn gen_via(r: &mut Rng) -> Vec<String> {
+    let n = *r.pick(&[0usize, 0, 1, 1, 2, 3]);
+    (0..n).map(|_| if r.chance(1, 12) { (*r.pick(BAD_SERVERS)).to_owned() } else { gen_server(r) }).collect()
+}
+
+/// The harness's own encoder (independent of ruma's): everything but RFC 3986 `unreserved` becomes `%XX`.
+fn enc_strict(s: &str) -> String {
+    let mut o = String::new();
+    for &b in s.as_bytes() {
+        if b.is_ascii_alphanumeric() || matches!(b, b'-' | b'.' | b'_' | b'~') {
+            o.push(b as char);
+        } else {
+            o.push_str(&format!("%{b:02X}"));
+        }
+    }
+    o
+}
+/// A laxer encoder: only the delimiters of the enclosing syntax and `%`, lower-case hex.
+fn enc_lax(s: &str) -> String {
+    let mut o = String::new();
+    for c in s.chars() {
+        if matches!(c, '/' | '?' | '#' | '%' | '&' | '=' | '+') {
+            o.push_str(&format!("%{:02x}", c as u32));
+        } else {
+            o.push(c);
+        }
+    }
+    o
+}
+
+fn to_text(id: &Id, via: &[String], style: usize) -> String {
+    let e: &dyn Fn(&str) -> String = match style {
+        0 => &enc_strict,
+        1 => &enc_lax,
+        _ => &|s: &str| s.to_owned(),
+    };
+    let mut t = String::from("https://matrix.to/#/");
+    match id {
+        Id::Room(x) | Id::Alias(x) | Id::User(x) => t.push_str(&e(x)),
+        Id::Event(r, ev) => {
+            if style == 1 {
+                t.push_str(&format!("{}/{}", e(ev), e(r)));
+            } else {
+                t.push_str(&format!("{}/{}", e(r), e(ev)));
+            }
+        }
+    }
+    for (i, v) in via.iter().enumerate() {
+        t.push_str(if i == 0 { "?via=" } else { "&via=" });
+        t.push_str(&e(v));
+    }
+    t
+}
+
+fn uri_text(id: &Id, via: &[String], action: Option<&str>, style: usize, r: &mut Rng) -> String {
+    let e: &dyn Fn(&str) -> String = match style {
+        0 => &enc_strict,
+        1 => &enc_lax,
+        _ => &|s: &str| s.to_owned(),
+    };
+    let long = style == 1;
+    let tail = |s: &str| e(&s[s.char_indices().nth(1).map_or(s.len(), |(i, _)| i)..]);
+    let roomty = |x: &str| {
+        if x.starts_with('!') {
+            "roomid"
+        } else if long {
+            "room"
+        } else {
+            "r"
+        }
+    };
+    let mut t = String::from("matrix:");
+    match id {
+        Id::Room(x) => t.push_str(&format!("roomid/{}", tail(x))),
+        Id::Alias(x) => t.push_str(&format!("{}/{}", if long { "room" } else { "r" }, tail(x))),
+        Id::User(x) => t.push_str(&format!("{}/{}", if long { "user" } else { "u" }, tail(x))),
+        Id::Event(ro, ev) => {
+            let et = if long { "event" } else { "e" };
+            if r.chance(1, 4) {
+                t.push_str(&format!("{et}/{}/{}/{}", tail(ev), roomty(ro), tail(ro)));
+            } else {
+                t.push_str(&format!("{}/{}/{et}/{}", roomty(ro), tail(ro), tail(ev)));
+            }
+        }
+    }
+    let mut items: Vec<String> = via.iter().map(|v| format!("via={}", e(v))).collect();
+    if let Some(a) = action {
+        let pos = r.below(items.len() + 1);
+        items.insert(pos, format!("action={}", e(a)));
+    }
+    for (i, it) in items.iter().enumerate() {
+        t.push(if i == 0 { '?' } else { '&' });
+        t.push_str(it);
+    }
+    t
+}
+
+/// Single-edit mutants of `s` (on characters) over `alphabet`, plus every truncation.
+fn mutants(s: &str, alphabet: &[&str], out: &mut Vec<String>) {
+    let chars: Vec<char> = s.chars().collect();
+    for i in 0..chars.len() {
+        let mut d: String = chars[..i].iter().collect();
+        out.push(d.clone()); // truncation
+        d.extend(chars[i + 1..].iter());
+        out.push(d); // deletion
+    }
+    for i in 0..=chars.len() {
+        for a in alphabet {
+            let mut d: String = chars[..i].iter().collect();
+            d.push_str(a);
+            d.extend(chars[i..].iter());
+            out.push(d);
+        }
+    }
+    for i in 0..chars.len() {
+        for a in alphabet {
+            let mut d: String = chars[..i].iter().collect();
+            d.push_str(a);
+            d.extend(chars[i + 1..].iter());
+            out.push(d);
+        }
+    }
+}
+
+fn exhaustive(alphabet: &[&str], n: usize, f: &mut dyn FnMut(&str)) {
+    let mut idx: Vec<usize> = vec![];
+    loop {
+        let s: String = idx.iter().map(|&i| alphabet[i]).collect();
+        f(&s);
+        let mut k = idx.len();
+        loop {
+            if k == 0 {
+                if idx.len() == n {
+                    return;
+                }
+                idx = vec![0; idx.len() + 1];
+                break;
+            }
+            k -= 1;
+            if idx[k] + 1 < alphabet.len() {
+                idx[k] += 1;
+                for j in k + 1..idx.len() {
+                    idx[j] = 0;
+                }
+                break;
+            }
+        }
+    }
+}
+
+fn emit_to(em: &mut Emitter, tag: &str, s: &str) {
+    em.emit(tag, Sx::L(vec![Sx::N(2), Sx::s(s)]), run_text_to(s));
+}
+/// Whether the accepted value's identifier is in the class of the open finding C11-empty-opaque-id
+/// (room id "!" / event id "$"): such texts are recorded under the case kind N5 instead of N3.
+fn empty_opaque(out: &Sx) -> bool {
+    let id = (|| out.as_list()?.get(1)?.as_list()?.first()?.as_list()?.first())();
+    match id.and_then(Sx::as_list) {
+        Some([Sx::N(0), r]) => r.as_bytes() == Some(b"!"),
+        Some([Sx::N(3), _, e]) => e.as_bytes() == Some(b"$"),
+        _ => false,
+    }
+}
+fn emit_uri(em: &mut Emitter, tag: &str, s: &str) {
+    let out = run_text_uri(s);
+    let kind = if empty_opaque(&out) { 5 } else { 3 };
+    em.emit(tag, Sx::L(vec![Sx::N(kind), Sx::s(s)]), out);
+}
+fn emit_ctor(em: &mut Emitter, tag: &str, id: &Id, via: &[String]) {
+    let vs = Sx::L(via.iter().map(|s| Sx::s(s)).collect());
+    if let Some(o) = run_ctor_to(id, via) {
+        em.emit(tag, Sx::L(vec![Sx::N(0), id_case(id), vs.clone()]), o);
+    }
+    for flag in [false, true] {
+        if let Some(o) = run_ctor_uri(id, via, flag) {
+            em.emit(tag, Sx::L(vec![Sx::N(1), id_case(id), vs.clone(), Sx::b(flag)]), o);
+        }
+    }
+}
+
+const MUT: &[&str] = &[
+    "/", "?", "#", "%", "&", "=", "+", ":", "!", "$", "@", "a", "e", "%2F", "%00", "%FF", "%C3", "%c3%a9", "\t", "\n", " ",
+    "\u{e9}", "//", "..", "%2", "\\", "[", "]",
+];
+
+/// Hand-written texts: the tests' examples, the candidate defects of DESIGN section 11, and the corners of
+/// the `url` crate that a `matrix:` URI can reach.
+const FIXED_TO: &[&str] = &[
+    "",
+    "https://matrix.to/#/",
+    "https://matrix.to/#",
+    "https://matrix.to/#//",
+    "https://matrix.to/#///",
+    "https://matrix.to/#/!x///",
+    "https://matrix.to/#/!x//",
+    "https://matrix.to/#/!x/",
+    "https://matrix.to/#///x",
+    "https://matrix.to/#//x/",
+    "https://matrix.to/#/!x//$y",
+    "https://matrix.to/#/!x/$y/",
+    "https://matrix.to/#//!x/$y",
+    "https://matrix.to/#/$y/!x",
+    "https://matrix.to/#/$y/#x:a.b",
+    "https://matrix.to/#/$y",
+    "https://matrix.to/#/%24y/%21x",
+    "https://matrix.to/#/!",
+    "https://matrix.to/#/!/$",
+    "https://matrix.to/#/!/$/",
+    "https://matrix.to/#/%",
+    "https://matrix.to/#/%2",
+    "https://matrix.to/#/%2F",
+    "https://matrix.to/#/%2F!x",
+    "https://matrix.to/#/!x%2F",
+    "https://matrix.to/#/!x%2F$y",
+    "https://matrix.to/#/%00",
+    "https://matrix.to/#/!%00",
+    "https://matrix.to/#/!%FF",
+    "https://matrix.to/#/!%C3",
+    "https://matrix.to/#/!%C3%A9",
+    "https://matrix.to/#/!%c3%a9",
+    "https://matrix.to/#/!x?",
+    "https://matrix.to/#/!x??",
+    "https://matrix.to/#/!x?via=a.b?",
+    "https://matrix.to/#/!x?via=a.b?via=c.d",
+    "https://matrix.to/#/!x?via=a.b/",
+    "https://matrix.to/#/!x/?via=a.b",
+    "https://matrix.to/#/!x?via=a.b&",
+    "https://matrix.to/#/!x?&&via=a.b&&",
+    "https://matrix.to/#/!x?via",
+    "https://matrix.to/#/!x?via=",
+    "https://matrix.to/#/!x?=a.b",
+    "https://matrix.to/#/!x?via=a.b=c",
+    "https://matrix.to/#/!x?v%69a=a.b",
+    "https://matrix.to/#/!x?via=a%2Eb",
+    "https://matrix.to/#/!x?via=a+b",
+    "https://matrix.to/#/!x?via=%FF",
+    "https://matrix.to/#/!x?via=a.b#c",
+    "https://matrix.to/#/!x?VIA=a.b",
+    "https://matrix.to/#/!x?via=a.b&custom=data",
+    "https://matrix.to/#/!x?via=[::1]:80",
+    "https://matrix.to/#/@a%2541:x.y",
+    "https://matrix.to/#/@a%41:x.y",
+    "https://matrix.to/#/%40jplatte%3Anotareal.hs",
+    "https://matrix.to/#/#ruma:notareal.hs/$event:notareal.hs",
+    "https://matrix.to/#/%40jplatte%3Anotareal.hs/%24event%3Anotareal.hs",
+    "HTTPS://matrix.to/#/!x",
+    "https://matrix.to/#/!x\n",
+    " https://matrix.to/#/!x",
+    "https://matrix.to/#/notanidentifier",
+    "https://notreal.to/#/",
+];
+const FIXED_URI: &[&str] = &[
+    "",
+    "matrix",
+    "matrix:",
+    "matrix:/",
+    "matrix://",
+    "matrix:///",
+    "matrix:u",
+    "matrix:u/",
+    "matrix:u//",
+    "matrix:/u/a:x.y",
+    "matrix://h/u/a:x.y",
+    "matrix://h:80/u/a:x.y",
+    "matrix://h:99999/u/a:x.y",
+    "matrix://h:/u/a:x.y",
+    "matrix://h:80\\u/a:x.y",
+    "matrix://u@h/u/a:x.y",
+    "matrix://u:p@h/u/a:x.y",
+    "matrix://@h/u/a:x.y",
+    "matrix://@/u/a:x.y",
+    "matrix://a@b@h/u/a:x.y",
+    "matrix://[::1]/u/a:x.y",
+    "matrix://[::1]:8/u/a:x.y",
+    "matrix://[::1/u/a:x.y",
+    "matrix://[1:2:3:4:5:6:7:8]/u/a:x.y",
+    "matrix://[1:2:3:4:5:6:1.2.3.4]/u/a:x.y",
+    "matrix://[::1.2.3.4]/u/a:x.y",
+    "matrix://[::1.2.3]/u/a:x.y",
+    "matrix://[::01.2.3.4]/u/a:x.y",
+    "matrix://[1::2::3]/u/a:x.y",
+    "matrix://[:1]/u/a:x.y",
+    "matrix://[1:]/u/a:x.y",
+    "matrix://[12345::]/u/a:x.y",
+    "matrix://[]/u/a:x.y",
+    "matrix://h h/u/a:x.y",
+    "matrix://h%20h/u/a:x.y",
+    "matrix://h^/u/a:x.y",
+    "matrix://h|/u/a:x.y",
+    "matrix://\u{e9}/u/a:x.y",
+    "matrix:///u/a:x.y",
+    "matrix:////u/a:x.y",
+    "matrix://?via=x.y",
+    "matrix://h?via=x.y",
+    "matrix://h#f",
+    "matrix:/./u/a:x.y",
+    "matrix:/../u/a:x.y",
+    "matrix:/x/../u/a:x.y",
+    "matrix:/u/x/../a:x.y",
+    "matrix:/u/a:x.y/..",
+    "matrix:/u/a:x.y/.",
+    "matrix:/u/a:x.y/./",
+    "matrix:/u/%2e/a:x.y",
+    "matrix:/u/%2E%2e/a:x.y",
+    "matrix:/u/.%2e/u/a:x.y",
+    "matrix:/c:/../u/a:x.y",
+    "matrix:/c|/../u/a:x.y",
+    "matrix:/x/c:/../u/a:x.y",
+    "matrix:/c:/../../u/a:x.y",
+    "matrix:/.//u/a:x.y",
+    "matrix:/..//u/a:x.y",
+    "matrix:/u\\a:x.y",
+    "matrix:/u/a b:x.y",
+    "matrix:/u/a{b}:x.y",
+    "matrix:/u/\u{e9}:x.y",
+    "matrix:/u/%C3%A9:x.y",
+    "matrix:/\tu/a:x.y",
+    "matrix:u/./a:x.y",
+    "matrix:u/../a:x.y",
+    "matrix:u/..",
+    "matrix:u/a:x.y/",
+    "matrix:u/a:x.y//",
+    "matrix:/u/a:x.y/",
+    "matrix://u/a:x.y",
+    "matrix:roomid//",
+    "matrix:roomid/",
+    "matrix:roomid//e/x",
+    "matrix:roomid/x/e/",
+    "matrix:roomid/x/e//",
+    "matrix:e//roomid/x",
+    "matrix:r/a:x.y/e//",
+    "matrix:u/a:x.y/r/b:x.y/e",
+    "matrix:u/a:x.y/r/b:x.y",
+    "matrix:u/a:x.y/e/b",
+    "matrix:e/b/u/a:x.y",
+    "matrix:e/b/e/c",
+    "matrix:e/b",
+    "matrix:x/a:x.y",
+    "matrix:U/a:x.y",
+    "MATRIX:u/a:x.y",
+    "mAtRiX:u/a:x.y",
+    "ma\ttrix:u/a:x.y",
+    "matrix\n:u/a:x.y",
+    " matrix:u/a:x.y ",
+    "\u{0}matrix:u/a:x.y\u{1f}",
+    "\u{a0}matrix:u/a:x.y",
+    "matrix:u/a:x.y\u{a0}",
+    "matrix:u/a\t:x\n.y\r",
+    "matrix:u/a\u{1}:x.y",
+    "matrix:u/a\u{7f}:x.y",
+    "matrix:u/a :x.y",
+    "matrix:u/ a:x.y",
+    "matrix:u/\u{e9}:x.y",
+    "matrix:u/a%41:x.y",
+    "matrix:u/a%2541:x.y",
+    "matrix:u/a%:x.y",
+    "matrix:u/a%2:x.y",
+    "matrix:u/a%2Fb:x.y",
+    "matrix:u/a%00b:x.y",
+    "matrix:u/%FF:x.y",
+    "matrix:u/a:x.y#",
+    "matrix:u/a:x.y#frag",
+    "matrix:u/a:x.y#?action=join",
+    "matrix:u/a:x.y?",
+    "matrix:u/a:x.y?#",
+    "matrix:u/a:x.y??",
+    "matrix:u/a:x.y?action=join#f",
+    "matrix:u/a:x.y?action=join?",
+    "matrix:u/a:x.y?action=a?b",
+    "matrix:u/a:x.y?action=chat&action=chat",
+    "matrix:u/a:x.y?action=&action=",
+    "matrix:u/a:x.y?action",
+    "matrix:u/a:x.y?action=",
+    "matrix:u/a:x.y?=join",
+    "matrix:u/a:x.y?action=jo%69n",
+    "matrix:u/a:x.y?action=JOIN",
+    "matrix:u/a:x.y?action=a%26b",
+    "matrix:u/a:x.y?action=a%23b",
+    "matrix:u/a:x.y?action=a%2Bb",
+    "matrix:u/a:x.y?action=a+b",
+    "matrix:u/a:x.y?action=a%25b",
+    "matrix:u/a:x.y?action=a%b",
+    "matrix:u/a:x.y?action=%",
+    "matrix:u/a:x.y?action=%4",
+    "matrix:u/a:x.y?action=%FF",
+    "matrix:u/a:x.y?action=%C3",
+    "matrix:u/a:x.y?action=%C3%A9",
+    "matrix:u/a:x.y?action=%E2%82",
+    "matrix:u/a:x.y?action=%E2%82%AC",
+    "matrix:u/a:x.y?action=%E0%80%80",
+    "matrix:u/a:x.y?action=%ED%A0%80",
+    "matrix:u/a:x.y?action=%F0%9F%98",
+    "matrix:u/a:x.y?action=%F0%9F%98%80",
+    "matrix:u/a:x.y?action=%F4%90%80%80",
+    "matrix:u/a:x.y?action=%F5%80",
+    "matrix:u/a:x.y?action=%80",
+    "matrix:u/a:x.y?action=%C0%80",
+    "matrix:u/a:x.y?action=%C3%C3%A9",
+    "matrix:u/a:x.y?action=\u{e9}",
+    "matrix:u/a:x.y?action=a b",
+    "matrix:u/a:x.y?action=a\"b'<>",
+    "matrix:u/a:x.y?action=a\tb",
+    "matrix:u/a:x.y?action=%09",
+    "matrix:u/a:x.y?action=%0A",
+    "matrix:u/a:x.y?action=%00",
+    "matrix:u/a:x.y?action=%20",
+    "matrix:u/a:x.y?action=join%20",
+    "matrix:u/a:x.y?action=join ",
+    "matrix:u/a:x.y?via=x.y",
+    "matrix:u/a:x.y?via=",
+    "matrix:u/a:x.y?via",
+    "matrix:u/a:x.y?via=x.y&&via=z",
+    "matrix:u/a:x.y?&via=x.y&",
+    "matrix:u/a:x.y?via=x+y",
+    "matrix:u/a:x.y?via=x%2Ey",
+    "matrix:u/a:x.y?via=[::1]:80",
+    "matrix:u/a:x.y?via=%5B::1%5D",
+    "matrix:u/a:x.y?via=h:+80",
+    "matrix:u/a:x.y?via=%FF",
+    "matrix:u/a:x.y?VIA=x.y",
+    "matrix:u/a:x.y?v%69a=x.y",
+    "matrix:u/a:x.y?via=x.y=z",
+    "matrix:u/a:x.y?custom=data",
+    "matrix:roomid/ruma:notareal.hs/e/event:notareal.hs?via=notareal.hs&action=join&via=anotherinexistant.hs",
+    "http://matrix.to/",
+    "https://matrix.to/#/!x",
+    "file:///u/a:x.y",
+    "matri:u/a:x.y",
+    "matrixx:u/a:x.y",
+    "matrix+x:u/a:x.y",
+    "1matrix:u/a:x.y",
+    ":u/a:x.y",
+    "u/a:x.y",
+    "matrix;u/a:x.y",
+    "mátrix:u/a:x.y",
+];
+
+pub fn run(tier: &str, seed: u64, em: &mut Emitter) {
+    let thorough = tier == "thorough";
+    let mut r = Rng::new(seed ^ 0xC11);
+
+    // ---- systematic 1: hand-written texts ---------------------------------------------------------
+    for s in FIXED_TO {
+        emit_to(em, "systematic-fixed", s);
+        emit_uri(em, "systematic-fixed", s);
+    }
+    for s in FIXED_URI {
+        emit_uri(em, "systematic-fixed", s);
+        emit_to(em, "systematic-fixed", s);
+    }
+
+    // ---- systematic 2: every local part x every id kind through the constructors ------------------
+    for l in LOCALS {
+        for sn in ["x.y", "[::1]:8448"] {
+            let room = format!("!{l}:{sn}");
+            let alias = format!("#{l}:{sn}");
+            let user = format!("@{l}:{sn}");
+            let ev = format!("${l}:{sn}");
+            let via1 = vec!["x.y".to_owned()];
+            let via2 = vec!["[::1]:8448".to_owned(), "a-b.c:1".to_owned(), "1.2.3.4".to_owned()];
+            for via in [&vec![], &via1, &via2] {
+                emit_ctor(em, "systematic-ctor", &Id::Room(room.clone()), via);
+                emit_ctor(em, "systematic-ctor", &Id::Event(room.clone(), ev.clone()), via);
+                emit_ctor(em, "systematic-ctor", &Id::Event(room.clone(), "$opaque".into()), via);
+            }
+            emit_ctor(em, "systematic-ctor", &Id::Alias(alias.clone()), &[]);
+            emit_ctor(em, "systematic-ctor", &Id::User(user), &[]);
+            emit_ctor(em, "systematic-ctor", &Id::Event(alias, ev), &[]);
+        }
+    }
+    for o in OPAQUE {
+        for p in OPAQUE {
+            emit_ctor(em, "systematic-ctor", &Id::Room(format!("!{o}")), &[]);
+            emit_ctor(em, "systematic-ctor", &Id::Event(format!("!{o}"), format!("${p}")), &["x.y".to_owned()]);
+        }
+    }
+    // every ASCII byte (and a few non-ASCII characters) inside each identifier kind
+    let mut specials: Vec<String> = (1u8..128).map(|b| (b as char).to_string()).collect();
+    specials.extend(["\u{80}", "\u{e9}", "\u{7ff}", "\u{800}", "\u{20ac}", "\u{ffff}", "\u{10000}", "\u{10ffff}"].map(String::from));
+    for c in &specials {
+        emit_ctor(em, "systematic-bytes", &Id::Room(format!("!a{c}b")), &[]);
+        emit_ctor(em, "systematic-bytes", &Id::Room(format!("!{c}")), &["x.y".to_owned()]);
+        emit_ctor(em, "systematic-bytes", &Id::User(format!("@a{c}b:x.y")), &[]);
+        emit_ctor(em, "systematic-bytes", &Id::Alias(format!("#{c}:x.y")), &[]);
+        emit_ctor(em, "systematic-bytes", &Id::Event(format!("!{c}"), format!("${c}")), &[]);
+        // the same characters, raw, in texts
+        emit_to(em, "systematic-bytes", &format!("https://matrix.to/#/!a{c}b"));
+        emit_to(em, "systematic-bytes", &format!("https://matrix.to/#/!a?via=x{c}y"));
+        emit_uri(em, "systematic-bytes", &format!("matrix:roomid/a{c}b"));
+        emit_uri(em, "systematic-bytes", &format!("matrix:/roomid/a{c}b"));
+        emit_uri(em, "systematic-bytes", &format!("matrix://h{c}/roomid/ab"));
+        emit_uri(em, "systematic-bytes", &format!("matrix:roomid/ab?action=x{c}y"));
+        emit_uri(em, "systematic-bytes", &format!("matrix:roomid/ab?via=x{c}y"));
+        emit_uri(em, "systematic-bytes", &format!("matrix:roomid/ab#x{c}y"));
+        emit_uri(em, "systematic-bytes", &format!("ma{c}trix:roomid/ab"));
+        emit_uri(em, "systematic-bytes", &format!("{c}matrix:roomid/ab{c}"));
+    }
+    // every %XX escape in a path segment and in a query value
+    for b in 0u32..256 {
+        emit_to(em, "systematic-bytes", &format!("https://matrix.to/#/!a%{b:02X}"));
+        emit_uri(em, "systematic-bytes", &format!("matrix:roomid/a%{b:02x}"));
+        emit_uri(em, "systematic-bytes", &format!("matrix:roomid/a?action=%{b:02X}"));
+        emit_uri(em, "systematic-bytes", &format!("matrix:roomid/a?action=%C3%{b:02X}"));
+        emit_uri(em, "systematic-bytes", &format!("matrix:roomid/a?action=%E2%{b:02X}%AC"));
+        emit_uri(em, "systematic-bytes", &format!("matrix:roomid/a?action=%F0%{b:02X}%98%80"));
+        emit_uri(em, "systematic-bytes", &format!("matrix:roomid/a?action=%{b:02X}%80%80%80"));
+    }
+
+    // ---- systematic 3: every action string on every id kind, through texts ------------------------
+    for a in ACTIONS {
+        for style in 0..3 {
+            for id in [
+                Id::User("@a:x.y".into()),
+                Id::Room("!r".into()),
+                Id::Alias("#a%b:x.y".into()),
+                Id::Event("!r:x.y".into(), "$e".into()),
+            ] {
+                for via in [vec![], vec!["x.y".to_owned(), "[::1]:80".to_owned()]] {
+                    let t = uri_text(&id, &via, Some(a), style, &mut r);
+                    emit_uri(em, "systematic-actions", &t);
+                }
+            }
+        }
+    }
+
+    // ---- systematic 4: exhaustive short strings after each base prefix ----------------------------
+    let alpha: &[&str] = &["/", "?", "#", "%", "!", "$", "@", "a", ":", "."];
+    let n = if thorough { 5 } else { 3 };
+    for pre in ["https://matrix.to/#/", "https://matrix.to/#/!a:b/", "https://matrix.to/#/!a?via="] {
+        exhaustive(alpha, n, &mut |w| emit_to(em, "systematic-exhaustive", &format!("{pre}{w}")));
+    }
+    for pre in ["matrix:", "matrix:u/", "matrix:roomid/a/", "matrix:r/a:b/e/", "matrix:u/a:b?"] {
+        exhaustive(alpha, n, &mut |w| emit_uri(em, "systematic-exhaustive", &format!("{pre}{w}")));
+    }
+    // the hierarchical forms (authority, dot segments) over their own alphabets
+    let n2 = if thorough { 6 } else { 4 };
+    exhaustive(&["/", ".", "%2e", "%2E", "a", "c:", "?", "u/a:b"], if thorough { 5 } else { 4 }, &mut |w| {
+        emit_uri(em, "systematic-exhaustive", &format!("matrix:/{w}"));
+    });
+    exhaustive(&["/", "@", ":", "[", "]", "a", "1", "?", "#", "\\"], if thorough { 5 } else { 3 }, &mut |w| {
+        emit_uri(em, "systematic-exhaustive", &format!("matrix://{w}"));
+        emit_uri(em, "systematic-exhaustive", &format!("matrix://{w}/u/a:b"));
+    });
+    exhaustive(&["0", "1", "f", "g", ":", "."], n2, &mut |w| {
+        emit_uri(em, "systematic-exhaustive", &format!("matrix://[{w}]/u/a:b"));
+    });
+    exhaustive(&["&", "=", "+", "%", "via", "action", "a", "join", "x.y", "%41", "#"], if thorough { 5 } else { 4 }, &mut |w| {
+        emit_uri(em, "systematic-exhaustive", &format!("matrix:u/a:b?{w}"));
+    });
+    exhaustive(&["&", "=", "+", "%", "via", "a", "x.y", "%2E", "?", "/"], if thorough { 5 } else { 3 }, &mut |w| {
+        emit_to(em, "systematic-exhaustive", &format!("https://matrix.to/#/!a?{w}"));
+    });
+
+    // ---- random structured: values -> constructors, values -> texts in three styles, mutants ------
+    let n_vals = if thorough { 60000 } else { 2500 };
+    for i in 0..n_vals {
+        let id = gen_id(&mut r);
+        let via = gen_via(&mut r);
+        emit_ctor(em, "random-ctor", &id, &via);
+        let style = r.below(3);
+        let t = to_text(&id, &via, style);
+        emit_to(em, "random-text", &t);
+        let action = match r.below(4) {
+            0 => None,
+            1 => Some("join"),
+            2 => Some("chat"),
+            _ => Some(*r.pick(ACTIONS)),
+        };
+        let u = uri_text(&id, &via, action, style, &mut r);
+        emit_uri(em, "random-text", &u);
+        let every = if thorough { 600 } else { 500 };
+        if i % every == 0 {
+            let mut ms = vec![];
+            mutants(&t, MUT, &mut ms);
+            for m in &ms {
+                emit_to(em, "random-mutant", m);
+            }
+            ms.clear();
+            mutants(&u, MUT, &mut ms);
+            for m in &ms {
+                emit_uri(em, "random-mutant", m);
+            }
+        }
+    }
+
+    // ---- malformed: unstructured strings --------------------------------------------------------------
+    let n_mal = if thorough { 40000 } else { 3000 };
+    for _ in 0..n_mal {
+        let n = r.below(20);
+        let mut s = String::new();
+        for _ in 0..n {
+            if r.chance(1, 3) {
+                s.push_str(*r.pick(&[
+                    "/", "?", "#", "%", "&", "=", "+", ":", "!", "$", "@", "u", "r", "e", "roomid", "via", "action", "%2F", "%C3",
+                    "\u{e9}", "\t", " ", "x.y", "..", "[", "]", "\\",
+                ]));
+            } else {
+                s.push((0x20 + r.below(0x5f)) as u8 as char);
+            }
+        }
+        match r.below(4) {
+            0 => emit_to(em, "malformed", &format!("https://matrix.to/#/{s}")),
+            1 => emit_uri(em, "malformed", &format!("matrix:{s}")),
+            2 => emit_uri(em, "malformed", &s),
+            _ => emit_to(em, "malformed", &s),
+        }
+    }
+}
